@@ -205,6 +205,51 @@ func put(container, v interface{}) {
 	}
 }
 
+// ---- a marshaler whose result lives in memory it owns: a slice with spare capacity into its own array
+
+const ownCanary = 0xA5
+
+var ownBufs [8][96]byte
+
+type BufMJ struct{ ID int }
+
+func (b BufMJ) doc() string { return fmt.Sprintf(`{"buf":%d,"s":"x<y"}`, b.ID) }
+
+func (b BufMJ) MarshalJSON() ([]byte, error) {
+	buf := &ownBufs[b.ID%len(ownBufs)]
+	for i := range buf {
+		buf[i] = ownCanary
+	}
+	n := copy(buf[:], b.doc())
+	return buf[:n], nil // len n, cap 96: the room behind the text is not the encoder's
+}
+
+type BufHolder struct {
+	A int
+	M BufMJ
+	L []BufMJ
+	I interface{}
+	P *BufMJ
+	Z string
+}
+
+// checkOwnBufs verifies that the texts handed out by BufMJ and the room behind them are untouched.
+func checkOwnBufs(ids []int) string {
+	for _, id := range ids {
+		buf := &ownBufs[id%len(ownBufs)]
+		doc := BufMJ{ID: id}.doc()
+		if string(buf[:len(doc)]) != doc {
+			return fmt.Sprintf("the bytes returned by MarshalJSON (owner %d) were modified: %q, were %q", id, buf[:len(doc)], doc)
+		}
+		for k := len(doc); k < len(buf); k++ {
+			if buf[k] != ownCanary {
+				return fmt.Sprintf("the encoder wrote behind the slice returned by MarshalJSON (owner %d): offset +%d holds %#x", id, k-len(doc), buf[k])
+			}
+		}
+	}
+	return ""
+}
+
 // ---- entry points (the four interpreters, both key-escape programs)
 
 var noColor = &gojson.ColorScheme{}
@@ -350,6 +395,42 @@ func runCase(f *failer, c Case) {
 		runValue(f, c, v, cyclic, c.Depth >= 1, kind != "slice")
 		rt.Label("generic " + depthLabel(c.Depth))
 		return
+	case "bufmj":
+		v := BufHolder{A: 1, M: BufMJ{ID: 1}, L: []BufMJ{{ID: 2}, {ID: 3}}, I: BufMJ{ID: 4}, P: &BufMJ{ID: 5}, Z: "z"}
+		ids := []int{1, 2, 3, 4, 5}
+		for _, ep := range entries {
+			c.Entry = ep.name
+			rt.Journal("bufmj", func() string { b, _ := stdjson.Marshal(c); return string(b) })
+			var got []byte
+			var gerr error
+			pv := rt.Guard(func() { got, gerr = ep.gj(v) })
+			rt.Count("cases/bufmj", 1)
+			if pv != nil || gerr != nil {
+				f.fail("bufmj", c, "%s: panic=%v err=%v", ep.name, pv, gerr)
+				return
+			}
+			if msg := checkOwnBufs(ids); msg != "" {
+				f.fail("marshaler-result-written", c, "%s: %s", ep.name, msg)
+				return
+			}
+			// a following encoding that goes through the shared marshal buffer must not reach them either
+			if _, err := gojson.MarshalIndent(map[string]interface{}{"k": stdjson.RawMessage(`{"other":"XXXXXXXXXXXXXXXXXXXXXXXXXXXXXXXXXXXXXXXXXXXXXXXXXXXXXXXXXXXX"}`)}, "", " "); err != nil {
+				f.fail("bufmj", c, "follow-up MarshalIndent: %v", err)
+				return
+			}
+			if msg := checkOwnBufs(ids); msg != "" {
+				f.fail("marshaler-result-written", c, "after a later MarshalIndent following %s: %s", ep.name, msg)
+				return
+			}
+			want, _ := ep.std(v)
+			if d := ref.SameDocument(got, want); d != "" {
+				f.fail("differs", c, "%s: %s", ep.name, d)
+				return
+			}
+		}
+		rt.NonTrivial(rt.Hash64("bufmj", fmt.Sprint(c.Fill)))
+		rt.Label("marshaler result with spare capacity in memory it owns")
+		return
 	case "local":
 		var i int
 		fmt.Sscanf(c.Type, "local:%d", &i)
@@ -468,6 +549,7 @@ func TestCheck(t *testing.T) {
 			}
 		}
 	}
+	runCase(f, Case{Type: "bufmj", Build: "bufmj", Fill: uint64(rt.E.Shard)})
 	for i := range Locals {
 		if i%rt.E.NShards == rt.E.Shard {
 			runCase(f, Case{Type: fmt.Sprintf("local:%d", i), Build: "local"})
